@@ -409,7 +409,7 @@ func c09CallGraphProgram(r *rand.Rand) *Program {
 }
 
 func checkC09(c *Check) {
-	c.Rule = "multi-file programs over 13 import-graph shapes (single, chains of 3-5, fan-out 2-3 with top-level calls in every import, diamonds, one file under two aliases, std + local, local importing std) whose files share names (Count, secret, helper, Get) and exercise public/private functions, globals read and written by their own file's functions, cross-file calls and top-level code; each imported file is additionally rendered in variants (a trailing comment) until every first hex digit 0-f of its content-hash prefix has been executed, plus mined contents whose digest starts with 00, has only decimal digits, only letters, or a zero in second place; every statement form that writes a global (=, op=, ++/--, multi-assignment, element write) runs inside the imported files; random acyclic import graphs over 3-6 files; random call graphs across 2-5 files (4-8 functions per file, calls to earlier own functions and to imported public functions from function bodies and from top-level code, bounded call counts, every function printing its name); negative cases (private call, missing/unknown/duplicate alias, unknown function, missing file); oracle = reference interpreter with module semantics + a text monitor on the emitted Bash (every invoked function defined earlier, nothing defined twice) + real bash run. Non-trivial = at least one cross-file call executed; distinct = SHA-256 of all files"
+	c.Rule = "multi-file programs over 20 import-graph shapes (among them: importers in different directories writing the same import path, local files named like std modules, definitions with effectful initialisers in files reached twice; single, chains of 3-5, fan-out 2-3 with top-level calls in every import, diamonds, one file under two aliases, std + local, local importing std) whose files share names (Count, secret, helper, Get) and exercise public/private functions, globals read and written by their own file's functions, cross-file calls and top-level code; each imported file is additionally rendered in variants (a trailing comment) until every first hex digit 0-f of its content-hash prefix has been executed, plus mined contents whose digest starts with 00, has only decimal digits, only letters, or a zero in second place; every statement form that writes a global (=, op=, ++/--, multi-assignment, element write) runs inside the imported files; random acyclic import graphs over 3-6 files; random call graphs across 2-5 files (4-8 functions per file, calls to earlier own functions and to imported public functions from function bodies and from top-level code, bounded call counts, every function printing its name); negative cases (private call, missing/unknown/duplicate alias, unknown function, missing file); oracle = reference interpreter with module semantics + a text monitor on the emitted Bash (every invoked function defined earlier, nothing defined twice) + real bash run. Non-trivial = at least one cross-file call executed; distinct = SHA-256 of all files"
 	c.Assumptions = []string{"files reached along several import paths contain only definitions with pure initialisers (whether their top-level effects run once is not stated)", "std strings functions modelled by Go's strings in the reference"}
 	runProbes(c, bashProbeJudge)
 	nontrivial := func(r Result) bool { return len(r.Stdout) > 0 }
